@@ -766,16 +766,10 @@ Proof.
     destruct (evalx_functional _ _ _ _ _ _ _ _ _ _ _ _ _ _ H1 H2) as [E _]; discriminate.
 Qed.
 
-(* ---------- soundness, rule by rule ---------- *)
+(* ---------- soundness, rule by rule (URI, absolute_URI, URI_reference: UriSoundURI.v, UriSoundAbs.v, UriSoundRef.v) ---------- *)
 Lemma sound_IPv4address : forall s, bytes_ok s -> uri_accepts TIPv4address s -> matches (rfc TIPv4address) s.
 Proof. apply sound_of_cert. vm_compute. reflexivity. Qed.
 Lemma sound_IPv6address : forall s, bytes_ok s -> uri_accepts TIPv6address s -> matches (rfc TIPv6address) s.
-Proof. apply sound_of_cert. vm_compute. reflexivity. Qed.
-Lemma sound_URI : forall s, bytes_ok s -> uri_accepts TURI s -> matches (rfc TURI) s.
-Proof. apply sound_of_cert. vm_compute. reflexivity. Qed.
-Lemma sound_absolute_URI : forall s, bytes_ok s -> uri_accepts Tabsolute_URI s -> matches (rfc Tabsolute_URI) s.
-Proof. apply sound_of_cert. vm_compute. reflexivity. Qed.
-Lemma sound_URI_reference : forall s, bytes_ok s -> uri_accepts TURI_reference s -> matches (rfc TURI_reference) s.
 Proof. apply sound_of_cert. vm_compute. reflexivity. Qed.
 
 (* ---------- the recorded finding, computed on the generated table ---------- *)
@@ -793,6 +787,28 @@ Proof.
   - exact R.
   - intros A. exact (accepts_not_rejects _ _ A R).
 Qed.
+
+(* the same defect refutes completeness of URI and absolute_URI: "a://1.2.3.4a" *)
+Definition host_witness_abs : list byte := [97; 58; 47; 47; 49; 46; 50; 46; 51; 46; 52; 97].
+Lemma complete_refuted_for (t : top) (w : list byte) :
+  bytes_ok w -> re_match (rfc t) w = true -> verdict_code (uri_run (uri_fuel w) t w) = 0 ->
+  exists s, bytes_ok s /\ matches (rfc t) s /\ uri_rejects t s /\ ~ uri_accepts t s.
+Proof.
+  intros Hb Hm Hv.
+  assert (R : uri_rejects t w).
+  { exists (uri_fuel w). destruct (uri_run (uri_fuel w) t w) as [[| |e] c evs| |] eqn:E; simpl in Hv; try discriminate.
+    - exists c, evs. left. reflexivity.
+    - destruct (is_parse_error e); discriminate. }
+  exists w. split; [exact Hb|]. split; [apply re_match_correct; exact Hm|]. split; [exact R|].
+  intros A. exact (accepts_not_rejects _ _ A R).
+Qed.
+Lemma host_witness_abs_ok : bytes_ok host_witness_abs.
+Proof. unfold host_witness_abs, bytes_ok. repeat constructor. Qed.
+Lemma complete_refuted_URI : exists s, bytes_ok s /\ matches (rfc TURI) s /\ uri_rejects TURI s /\ ~ uri_accepts TURI s.
+Proof. apply (complete_refuted_for TURI host_witness_abs host_witness_abs_ok); vm_compute; reflexivity. Qed.
+Lemma complete_refuted_absolute_URI :
+  exists s, bytes_ok s /\ matches (rfc Tabsolute_URI) s /\ uri_rejects Tabsolute_URI s /\ ~ uri_accepts Tabsolute_URI s.
+Proof. apply (complete_refuted_for Tabsolute_URI host_witness_abs host_witness_abs_ok); vm_compute; reflexivity. Qed.
 
 (* ================================================================== Part 5: IPv4address is exact *)
 
